@@ -333,9 +333,15 @@ def run_paths_and_aliases(ctx):
     # e2e path tasks
     path_tasks = []
     for cl, ps in list(zip(comp_lists, rendered))[:40 if ctx.tier == 'quick' else 300]:
-        for eng, style in [('v0', 'path_field'), ('v0', 'KeyPath'), ('v1', 'AliasPath')]:
-            path_tasks.append({'engine': eng, 'style': style, 'path': ps, 'value': r.randrange(2, 99),
-                               'comps': [[k, v] for c in cl for k, v in canon_py(c).items()]})
+        variants = [(cl, ps)]
+        # the path's head key may coincide with the field's own name (the loader must not treat
+        # that top-level key as the field itself)
+        own = ['f'] + list(cl)
+        variants.append((own, ''.join(render_comp(c) for c in own)))
+        for cl2, ps2 in variants:
+            for eng, style in [('v0', 'path_field'), ('v0', 'KeyPath'), ('v1', 'AliasPath')]:
+                path_tasks.append({'engine': eng, 'style': style, 'path': ps2, 'value': r.randrange(2, 99),
+                                   'comps': [[k, v] for c in cl2 for k, v in canon_py(c).items()]})
     # alias tasks
     alias_tasks = []
     pool = list(ALIAS_POOL)
